@@ -23,7 +23,7 @@ ID = "C49"
 ENGINE = "threads"
 LEVEL = "exploration"
 TECHNIQUE = "deterministic simulation: real Team/ThreadPool on simulator-owned workers and baton-passing threads, tape-chosen interleaving incl. line-level pre-emption"
-QUICK_RUNS = 3000
+QUICK_RUNS = 12000
 BATCH = 50
 COMPONENTS = {"real": ["twisted._threads._team.Team", "twisted._threads._pool.pool", "twisted._threads._threadworker.LockWorker/ThreadWorker (family b)",
                        "twisted.python.threadpool.ThreadPool (family b)"],
@@ -207,12 +207,15 @@ def family_a(sim):
 
 def family_b(sim):
     maxthreads = sim.draw_int(1, 3, "max")
-    minthreads = sim.draw_int(0, maxthreads, "min")
+    minthreads = 0 if sim.draw_bool(0.4, "min0") else sim.draw_int(0, maxthreads, "min")   # min 0: no worker exists until one is needed
     ncallers = sim.draw_int(1, 3, "ncallers")
     preempt = sim.draw_choice([0.0, 0.05, 0.2], "preempt_p")
-    start_late = sim.draw_bool(0.3, "start_late")
-    sim.config = {"family": "threadpool", "min": minthreads, "max": maxthreads, "callers": ncallers, "preempt_p": preempt, "start_late": start_late}
-    sched = T.Scheduler(sim, trace_files=("_threads/_team.py", "_threads/_threadworker.py", "python/threadpool.py") if preempt else (), preempt_p=preempt)
+    start_late = sim.draw_bool(0.4, "start_late")
+    policy = sim.draw_choice(["uniform", "pct"], "sched_policy")
+    if policy == "pct":
+        preempt = sim.draw_choice([0.004, 0.015], "pct_change_p")   # few, long-lasting pre-emptions
+    sim.config = {"family": "threadpool", "min": minthreads, "max": maxthreads, "callers": ncallers, "preempt_p": preempt, "start_late": start_late, "policy": policy}
+    sched = T.Scheduler(sim, trace_files=("_threads/_team.py", "_threads/_threadworker.py", "python/threadpool.py") if preempt else (), preempt_p=preempt, policy=policy)
     saved = (_pool.Queue, _pool.Lock, _pool.LocalStorage, _pool.ThreadWorker)
     real_TW = _pool.ThreadWorker
     quit_calls = []
@@ -253,6 +256,30 @@ def family_b(sim):
     try:
         pool = threadpool.ThreadPool(minthreads, maxthreads, name="pool")
         pool.threadFactory = sched.thread_factory
+        in_coord = [0]
+        real_coordinate = pool._team._coordinateThisTask
+
+        def coordinate(task):
+            in_coord[0] += 1
+            try:
+                return real_coordinate(task)
+            finally:
+                in_coord[0] -= 1
+
+        pool._team._coordinateThisTask = coordinate
+        real_create = pool._team._createWorker
+
+        def create():
+            # a cooperative pre-emption point right after a refused creation (the creator has just read the limit and the
+            # worker counts; whatever the coordinator does next is based on that reading): legal anywhere for real threads,
+            # placed here because this is where a concurrent limit change / start() matters
+            w = real_create()
+            if w is None:
+                sim.probe("creation_refused_by_limit")
+                sched.point("after-limit-check", demote=True)
+            return w
+
+        pool._team._createWorker = create
         if not start_late:
             pool.start()
         ids = [0]
@@ -300,6 +327,10 @@ def family_b(sim):
                         pool.adjustPoolsize(mn, mx)
                     except AlreadyQuit:
                         pass
+                    except AssertionError:
+                        # adjustPoolsize stores min and max in two steps; a concurrent adjust/start can observe the torn pair
+                        # and trip its own sanity assertion.  The statement says nothing about that: no verdict.
+                        sim.probe("torn_limit_pair_seen")
                     sim.probe("limit_changed")
                 elif op == "startw":
                     try:
@@ -315,15 +346,30 @@ def family_b(sim):
                 else:
                     sched.point("caller-yield")
 
-        callers = [sched.spawn("caller%d" % k, caller, k, sim.draw_int(1, 8, "nops")) for k in range(ncallers)]
+        # a late start is raced by few operations per caller: a submission stranded by the race stays visible (a later submission would rescue it)
+        callers = [sched.spawn("caller%d" % k, caller, k, sim.draw_int(1, 3 if start_late else 8, "nops")) for k in range(ncallers)]
         concurrent_stop = sim.draw_bool(0.3, "concurrent_stop")
+        starter = None
         if start_late:
-            # let callers queue work before the pool starts, then start it
+            # let callers queue work before the pool starts, then start it - on a thread of its own, so that start() interleaves
+            # with submissions in progress at line granularity (a submission may be between reading the limit and enqueueing)
             for _ in range(sim.draw_int(0, 10, "prestart")):
                 if not sched.step():
                     break
-            pool.start()
-            sim.probe("started_with_backlog") if pool._team.statistics().backloggedWorkCount else None
+
+            def do_start():
+                if in_coord[0]:
+                    sim.probe("start_during_coordination")   # reach probe: start() begins while a submission is being coordinated
+                    if not pool._team.statistics().backloggedWorkCount:
+                        sim.probe("start_during_coordination_backlog_not_yet_recorded")
+                try:
+                    pool.start()
+                except AssertionError:
+                    sim.probe("torn_limit_pair_seen")   # see adjust: start() read min/max between a concurrent adjustPoolsize's two stores
+                    pool.started = True
+                sim.probe("started_with_backlog") if pool._team.statistics().backloggedWorkCount else None
+
+            starter = sched.spawn("starter", do_start)
         try:
             if not concurrent_stop:
                 sched.run(max_steps=20000, until=lambda: all(c.state == "done" for c in callers))
@@ -331,6 +377,8 @@ def family_b(sim):
                 for _ in range(sim.draw_int(0, 30, "before_stop")):
                     if not sched.step():
                         break
+            if starter is not None:
+                sched.run(max_steps=20000, until=lambda: starter.state == "done")   # stop() is only called on a started pool
             stop_called[0] = True
             sim.event("stop")
             with sim.guard("stop-raised", "threadpool"):
@@ -360,7 +408,7 @@ def family_b(sim):
 
 
 def run(sim):
-    if sim.draw_weighted([("team", 7), ("threadpool", 3)], "family") == "team":
+    if sim.draw_weighted([("team", 5), ("threadpool", 5)], "family") == "team":
         family_a(sim)
     else:
         family_b(sim)
